@@ -363,6 +363,83 @@ func runGossip(s *sim.Sim, o gopts) {
 			s.Event("%s %s on %s -> %v (declined=%v ts=%d)", wr.id, kind, nd.name, err, declined, ts)
 		})
 	}
+	// the same instances also register in a second ring (same ids under another key)
+	acked2 := map[string]int64{}
+	ack2Node, ack2Inc := map[string]int{}, map[string]int{}
+	last2 := map[string]int64{}
+	busy2 := map[string]bool{}
+	ring2Op := func(wr *writer) {
+		nd := w.nodes[wr.home]
+		if !nd.alive || busy2[wr.id] {
+			return
+		}
+		busy2[wr.id] = true
+		inc := nd.incarnation
+		s.Go("op2-"+wr.id, func() {
+			var ts int64
+			declined := false
+			err := nd.ringCl.CAS(ctx, ring2Key, func(in interface{}) (interface{}, bool, error) {
+				d := ring.GetOrCreateRingDesc(in)
+				if d.Ingesters == nil {
+					d.Ingesters = map[string]ring.InstanceDesc{}
+				}
+				now := time.Now().Unix()
+				declined = now <= last2[wr.id]
+				if declined {
+					return nil, false, nil
+				}
+				d.Ingesters[wr.id] = ring.InstanceDesc{Id: wr.id, Addr: wr.id + ":2", Zone: "a", State: ring.ACTIVE, Timestamp: now, RegisteredTimestamp: 1}
+				ts = now
+				s.Park("op2-" + wr.id + ":f")
+				return d, true, nil
+			})
+			s.Locked(func() {
+				busy2[wr.id] = false
+				if err == nil && !declined {
+					last2[wr.id] = ts
+					if nd.alive && nd.incarnation == inc {
+						acked2[wr.id], ack2Node[wr.id], ack2Inc[wr.id] = ts, nd.idx, inc
+					}
+					s.Probe("second-ring-heartbeat")
+				}
+			})
+		})
+	}
+	// a key that lives for a while and is then deleted: full-state exchanges carry its deletion marker
+	auxHome := s.Choose(n, "aux-home")
+	auxWrites, auxDeleted, auxBusy := 0, false, false
+	auxOp := func() {
+		nd := w.nodes[auxHome]
+		if !nd.alive || auxBusy || auxDeleted {
+			return
+		}
+		auxBusy = true
+		del := auxWrites >= 1 && s.Chance(0.4, "delete-aux-key")
+		s.Go("aux", func() {
+			var err error
+			if del {
+				err = nd.ringCl.Delete(ctx, auxKey)
+			} else {
+				err = nd.ringCl.CAS(ctx, auxKey, func(in interface{}) (interface{}, bool, error) {
+					d := ring.GetOrCreateRingDesc(in)
+					if d.Ingesters == nil {
+						d.Ingesters = map[string]ring.InstanceDesc{}
+					}
+					d.Ingesters[fmt.Sprintf("aux-%d", auxWrites)] = ring.InstanceDesc{Id: fmt.Sprintf("aux-%d", auxWrites), Addr: "aux", State: ring.ACTIVE, Timestamp: time.Now().Unix()}
+					return d, true, nil
+				})
+			}
+			s.Locked(func() {
+				auxBusy = false
+				if err == nil && del {
+					auxDeleted = true
+					s.Probe("aux-key-deleted")
+				} else if err == nil {
+					auxWrites++
+				}
+			})
+		})
+	}
 	forget := func() {
 		// the operator forgets an instance on some node that currently shows it
 		var cands []*writer
@@ -663,6 +740,10 @@ func runGossip(s *sim.Sim, o gopts) {
 				var kvp memberlist.KeyValuePair
 				if kvp.Unmarshal(fr[j][4:]) == nil {
 					kvp.Codec = "no-such-codec"
+					if s.Chance(0.5, "bad-frame-claims-deletion") {
+						kvp.Deleted = true
+						kvp.UpdateTimeMillis = time.Now().UnixMilli()
+					}
 					bad, _ := kvp.Marshal()
 					var payload []byte
 					for i, f := range fr {
@@ -732,6 +813,15 @@ func runGossip(s *sim.Sim, o gopts) {
 		}
 		if o.removals > 0.2 {
 			alts = append(alts, alt{1, forget})
+		}
+		for _, wr := range writers {
+			wr := wr
+			if wr.ops > 0 && !busy2[wr.id] && w.nodes[wr.home].alive {
+				alts = append(alts, alt{1, func() { ring2Op(wr) }})
+			}
+		}
+		if !auxBusy && !auxDeleted && w.nodes[auxHome].alive {
+			alts = append(alts, alt{1, auxOp})
 		}
 		alts = append(alts, alt{8, func() {
 			from := s.Choose(n, "gossip-from")
@@ -902,6 +992,10 @@ func runGossip(s *sim.Sim, o gopts) {
 				busy = true
 			}
 		}
+		for _, b := range busy2 {
+			busy = busy || b
+		}
+		busy = busy || auxBusy
 		if !busy {
 			break
 		}
@@ -979,7 +1073,7 @@ func runGossip(s *sim.Sim, o gopts) {
 	lookupCheck()
 
 	// ---- convergence oracle (C06) ------------------------------------------------------------------
-	for _, key := range []string{ringKey, partKey} {
+	for _, key := range []string{ringKey, partKey, ring2Key} {
 		if key == ringKey && o.collisions {
 			// the statement of convergence (C03 / C06) presupposes that no two instances claim the same token:
 			// with deliberate collisions the loser's token list legitimately depends on the merge order
@@ -997,6 +1091,23 @@ func runGossip(s *sim.Sim, o gopts) {
 				first, firstNode = c, nd.name
 			} else if c != first {
 				s.Fail("no-convergence", "", "key %s after quiescence (%d gossip rounds, push/pull=%v): node %s shows [%s], node %s shows [%s]; raw: %s", key, rounds, usePushPull, firstNode, first, nd.name, c, w.allRaw())
+			}
+		}
+	}
+	// acknowledged heartbeats in the second ring
+	for id, ts := range acked2 {
+		if !w.nodes[ack2Node[id]].alive || w.nodes[ack2Node[id]].incarnation != ack2Inc[id] {
+			continue
+		}
+		for _, a := range alive {
+			raw, _ := w.nodes[a].raw(ring2Key).(*ring.Desc)
+			vis, _ := w.nodes[a].visible(ring2Key).(*ring.Desc)
+			e, ok := ring.InstanceDesc{}, false
+			if raw != nil && vis != nil {
+				e, ok = vis.Ingesters[id]
+			}
+			if !ok || e.Timestamp < ts {
+				s.Fail("acknowledged-update-lost", "second-ring", "the heartbeat of %s in the second ring (timestamp %d) was acknowledged on %s; after quiescence node %s shows [%s] (stored: %s)", id, ts, w.nodes[ack2Node[id]].name, w.nodes[a].name, canonValue(w.nodes[a].visible(ring2Key), false), w.nodes[a].rawCanon(ring2Key))
 			}
 		}
 	}
